@@ -327,6 +327,25 @@ theorem managed_after_reload (evs : List Ev) :
     requiredOK st.cur st.all st.managed = true :=
   requiredOK_of_inv _ (inv_run evs {} inv_init)
 
+/-- The un-manage a reload schedules is by MEMBERSHIP of the expression text, not by counting entries: an
+    expression the new request still contains — whatever its multiplicity before and after (one entry per enabled
+    plugin: `r=1,1` → `r=1,0`) — is in none of the jobs this reload adds.  (`managed_after_reload` then covers what
+    the jobs of OTHER reloads do, and `Ev.reloadNow` the immediate un-manage of the fail-safe reverts.) -/
+theorem contained_expression_never_unmanaged (st : St) (new : Req) (e : String) (he : e ∈ new.eps) :
+    ∀ j ∈ (reload .stamped st new).jobs, j ∉ st.jobs → j.global = false → e ∉ j.eps :=
+  reload_job_spares_contained st new e he
+
+/-- Non-vacuity / regression for the seeded change C14-s7: multiplicity 2 → 1 of the SAME expression, on the
+    scheduled path and on the immediate path (fail-safe revert): it stays managed, the entry that left is gone. -/
+example :
+    let two : Req := ⟨false, ["GET:::a\\.com/x$", "GET:::a\\.com/x$", "GET:::a\\.com/y$"]⟩
+    let one : Req := ⟨false, ["GET:::a\\.com/x$"]⟩
+    let st := run .stamped {} [.reload two, .reload one, .advance ttl]
+    let st' := run .stamped {} [.reload two, .reloadNow one]
+    st.jobs = [] ∧ st.managed.contains "GET:::a\\.com/x$" = true ∧ st.managed.contains "GET:::a\\.com/y$" = false ∧
+    st'.jobs = [] ∧ st'.managed.contains "GET:::a\\.com/x$" = true ∧ st'.managed.contains "GET:::a\\.com/y$" = false := by
+  decide
+
 /-- The order matters: publishing the new policies BEFORE the manage request (the seeded change C14-s5) breaks the
     property at the first refused PUT — the engine applies endpoints the proxy never registered. -/
 theorem publish_first_violation_witness :
